@@ -172,6 +172,8 @@ class CSSVariablesRule(cssrule.CSSRule):
             # SET but may raise:
             newVariables.cssText = variablestokens
 
+            # (read by the parser of the containing sheet or rule)
+            self._accepted = ok
             if ok:
                 # contains probably comments only upto {
                 self._setSeq(newseq)
